@@ -14,6 +14,9 @@ pub enum Fate {
     Drop,
     Dup,
     Delay(i32),
+    /// delivered on time, and a second copy this many rounds later (a network that re-delivers
+    /// very old packets)
+    DupLate(i32),
 }
 
 #[derive(Clone, Debug, Serialize, Deserialize, Default)]
@@ -234,6 +237,12 @@ impl SimNet {
                 due += n;
                 late = true;
             }
+            Some(Fate::DupLate(_)) => {}
+        }
+        let mut late_copy: Option<i32> = None;
+        if let Some(Fate::DupLate(n)) = fate {
+            self.stats.duplicated += 1;
+            late_copy = Some(n);
         }
         for _ in 0..copies {
             self.seq += 1;
@@ -246,6 +255,10 @@ impl SimNet {
                 seq: self.seq,
                 late,
             });
+        }
+        if let Some(n) = late_copy {
+            self.seq += 1;
+            self.inflight.push(Pkt { from, to, msg: msg.clone(), kind, due: due + n, seq: self.seq, late: true });
         }
     }
 
